@@ -31,6 +31,8 @@ func batchContents() []string {
 		"hello world", "", "@", "price: 5€ [ok]", "café", "你好", "你好 hello", "😀 emoji", "abc\x1bdef",
 		long("a", 140), long("a", 141), long("a", 160), long("a", 161), long("ab[", 153), long("ab[", 160), long("é", 70), long("é", 71), long("é", 141),
 		long("中", 70), long("中", 71), long("中a", 135), long("x", 306), long("x", 307), long("[", 77), long("€uro ", 200), long("😀", 36),
+		// contents that are white space only are contents (a blank keeps a conversation alive; line ends are characters)
+		" ", "\n", "\r\n", "\t", "\u00a0", "\u3000", "  \n ",
 	}
 }
 
